@@ -53,9 +53,19 @@ def do_search(w, which, ctx):
     from geneticengine.algorithms.hill_climbing import HC
     from geneticengine.algorithms.one_plus_one import OnePlusOne
     from geneticengine.algorithms.random_search import RandomSearch
-    from geneticengine.evaluation.budget import EvaluationBudget
+    from geneticengine.evaluation.budget import AnyOf, EvaluationBudget, SearchBudget
     from geneticengine.problems import SingleObjectiveProblem
     from ..world import OpResult
+
+    class Checks(SearchBudget):
+        """bounds the number of budget checks: constant random policies can starve GP of new individuals"""
+
+        def __init__(self):
+            self.n = 0
+
+        def is_done(self, tracker):
+            self.n += 1
+            return self.n > 12
 
     res = OpResult("search")
     problem = SingleObjectiveProblem(lambda p: 1.0, minimize=False)
@@ -63,7 +73,7 @@ def do_search(w, which, ctx):
     kw = {"population_size": 4} if algo is GeneticProgramming else {}
 
     def go():
-        a = algo(problem=problem, budget=EvaluationBudget(8), representation=w.rep, random=w.random, **kw)
+        a = algo(problem=problem, budget=AnyOf(EvaluationBudget(8), Checks()), representation=w.rep, random=w.random, **kw)
         return a.search()
 
     w.install_flaky()
